@@ -37,6 +37,8 @@ def compare(mod, r):
         # a panic is acceptable only where the model also aborts at a documented precondition
         if not (hasattr(mod, "panic_expected") and mod.panic_expected(case, r)):
             return ("panic", "implementation panicked (dev=%s release=%s)" % (r.get("dev_panic"), r.get("rel_panic")))
+    if "flaky=DIFF" in r["dev"]:
+        return ("value", "a transient Interrupted from the underlying reader, retried, changed what was delivered / parsed: " + r["dev"].split("flaky=DIFF")[1][:200])
     if "rel" in r and r["rel"] != r["dev"]:
         return ("devrel", "debug and release builds answer differently (release runs the cases in the opposite order: build-dependent arithmetic, or state carried between calls)")
     if r["model"] is None:
